@@ -459,6 +459,24 @@ def literal_tokens(tier):
         cnl2.append(ip + "." + fp)
         cnl2.append(str(rnd.randrange(1, 2 ** 20) << rnd.randint(0, 20)))
         cnl.append("0x" + digits(16, rnd.randint(1, 14), rnd.randint(1, 15)))
+    # digit separators on both sides of the radix point (the separators after the point must not count as digits)
+    def sep_at(s):
+        if len(s) < 2:
+            return s
+        ks = [k for k in range(1, len(s)) if s[k - 1] != "'" and s[k] != "'"]      # never two separators in a row
+        if not ks:
+            return s
+        k = rnd.choice(ks)
+        return s[:k] + "'" + s[k:]
+    cnl += ["1'0.2'5", "0.062'5", "1'234'567.000'001", "9.9'9'9", "12.5'0'0'0'1"]
+    cnl2 += ["1'0.2'5", "0.062'5", "3.1'2'5", "1'024.5"]
+    for _ in range(n // 4):
+        ip = digits(10, rnd.randint(1, 9), rnd.randint(1, 9))
+        fp = digits(10, rnd.randint(2, 8), rnd.randint(0, 9)).rstrip("0") or "25"
+        cnl.append(seps(ip, 3) + "." + sep_at(sep_at(fp)))
+        k = rnd.randint(2, 6)
+        f2 = ("%.6f" % (rnd.randrange(1, 2 ** k, 2) / 2.0 ** k)).split(".")[1].rstrip("0")
+        cnl2.append(sep_at(ip) + "." + sep_at(f2))
     # _wide: every chunk boundary (18 dec / 15 hex / 21 oct / 63 bin digits per chunk)
     for base, pre, stride in ((10, "", 18), (16, "0x", 15), (8, "0", 21), (2, "0b", 63)):
         lens = sorted(set([1, stride - 1, stride, stride + 1, 2 * stride - 1, 2 * stride, 2 * stride + 1, 3 * stride + 2] +
@@ -570,7 +588,7 @@ def static_programs(tier):
 
 def static_jobs(tier):
     progs = static_programs(tier)
-    jobs = [dict(src="h_static.cpp", cc="gcc", tag="static-gcc-%d" % m, defines=["MENU=%d" % m], env={"VERIF_PROGRAMS": progs}) for m in range(4)]
+    jobs = [dict(src="h_static.cpp", cc="gcc", tag="static-gcc-%d" % m, defines=["MENU=%d" % m], env={"VERIF_PROGRAMS": progs}) for m in range(5)]      # 4 = limb-aligned digit counts
     m = vlib.seed() % 4
     jobs.append(dict(src="h_static.cpp", cc="clang", tag="static-clang-%d" % m, defines=["MENU=%d" % m], env={"VERIF_PROGRAMS": progs}))
     return jobs
